@@ -145,3 +145,23 @@ func one(run *vlib.Run, sel string, d *Desc, glyphs []int, orc []int, labels ...
 		run.Fail(idx, cl, fail, sig)
 	}
 }
+
+// oneOracleOnly runs implementation and oracle on an input the model does not
+// cover (size); the case line starts with "!" and is not given to the model.
+func oneOracleOnly(run *vlib.Run, sel string, d *Desc, glyphs []int, labels ...string) {
+	cl := "!" + CaseLine(sel, d, glyphs, nil)
+	res, err := runImpl(sel, d, glyphs)
+	if err != nil {
+		panic(err)
+	}
+	nt, more := nontrivial(sel, d, glyphs, &res)
+	labels = append(labels, more...)
+	obs := res.obs
+	if len(obs) > 200 {
+		obs = "(ok ...)"
+	}
+	idx := run.Add(cl, obs, nt, labels...)
+	if fail, sig := oracle(sel, d, glyphs, &res); fail != "" {
+		run.Fail(idx, cl, fail, sig)
+	}
+}
